@@ -300,6 +300,8 @@ def _ty_size_upper(prog, ty):
         return PRIM_SIZE[ty]
     if ty.startswith("&") and "dyn " not in ty and "[" not in ty and "str" not in ty:
         return 8
+    if ty == "alloc::string::String" or re.match(r"^alloc::vec::Vec<[^,]*>$", ty):
+        return 24
     a = prog.adts.get(ty) if prog is not None else None
     if a and a.get("kind") == "Struct" and len(a["variants"]) == 1 and len(a["variants"][0]["fields"]) == 1:
         return _ty_size_upper(prog, a["variants"][0]["fields"][0]["ty"])
@@ -308,7 +310,7 @@ def _ty_size_upper(prog, ty):
 
 def _elem_size(prog, coll):
     """lower bound on the bytes one element of an in-memory collection occupies"""
-    m = re.match(r"^(?:alloc::vec::Vec|std::collections::hash::set::HashSet|alloc::collections::vec_deque::VecDeque)<(.*)>$", coll)
+    m = re.match(r"^(?:alloc::vec::Vec|std::collections::hash::set::HashSet|indexmap::set::IndexSet|alloc::collections::btree::set::BTreeSet|alloc::collections::vec_deque::VecDeque)<(.*)>$", coll)
     if m:
         return _ty_size(prog, _split_generics(m.group(1))[0])
     m = re.match(r"^\[(.*)\]$", coll)
@@ -460,6 +462,14 @@ def auto_discharge(f, site, prog=None):
             # occupies len * size bytes (< isize::MAX), so the new capacity computation cannot overflow (allocation failure aborts, it does not panic)
             l = op_local(t["args"][0]) if t["args"] else None
             d = f.single_def(f.copy_root(l)) if l is not None else None
+            if d and d[0] == "call" and callee_name(d[2]["callee"]).split("::")[-1] == "min" and len(d[2]["args"]) == 2:
+                # min(a.len(), b.len()) is at most either length
+                for a_ in d[2]["args"]:
+                    la_ = op_local(a_)
+                    da_ = f.single_def(f.copy_root(la_)) if la_ is not None else None
+                    if da_ and da_[0] == "call" and callee_name(da_[2]["callee"]).endswith("::len") and da_[2]["args"]:
+                        d = da_
+                        break
             if d and d[0] == "call" and callee_name(d[2]["callee"]).endswith("::len") and d[2]["args"]:
                 rl = op_local(d[2]["args"][0])
                 rty = strip_ref(f.local_ty(rl)) if rl is not None else ""
@@ -559,6 +569,32 @@ def rebalance(chk, prog, res, rows):
             alts = [k for k in rows if k[0] == fp and re.match(r"^call:index<Vec<[^>]*>>\[usize\]$", k[1])]
             if len(alts) == 1:
                 res.setdefault(alts[0], []).extend(res.pop((fp, sig)))
+    # one source expression seen twice: a helper that is not in the reviewed inventory is inlined (canon.py) at each of its call sites,
+    # so a panic-capable expression in it shows up once per caller; the copies have the same signature and the same source line, and
+    # one of them is covered by a reviewed row (the function the code was extracted from)
+    covered_locs = {}
+    for (fp, sig), sites in res.items():
+        row = rows.get((fp, sig))
+        if row is not None and len(sites) <= row["count"]:
+            for s_ in sites:
+                covered_locs.setdefault((sig, s_.loc()), (fp, row))
+    for (fp, sig) in sorted(res):
+        have = rows[(fp, sig)]["count"] if (fp, sig) in rows else 0
+        sites = res[(fp, sig)]
+        if len(sites) <= have:
+            continue
+        keep, dup = [], []
+        for s_ in sites:
+            c_ = covered_locs.get((sig, s_.loc()))
+            if c_ is not None and c_[0] != fp and c_[1]["verdict"] == "ok" and getattr(s_.fn, "raw", {}).get("inlined_ret"):
+                dup.append((s_, c_[0]))
+            else:
+                keep.append(s_)
+        if dup and len(keep) <= have:
+            res[(fp, sig)] = keep
+            if not keep:
+                del res[(fp, sig)]
+            chk.extra.setdefault("C17-moved-sites", []).append("%s `%s` at %s: the same source expression as the reviewed one in %s (shared helper inlined at both)" % (fp, sig, dup[0][0].loc(), dup[0][1]))
     # code motion across one call edge: an expression hoisted from a callee into its caller (or pushed down) keeps its reviewed row, as
     # long as the row's function has that many fewer sites of the signature now (the row is vacated, not shared with a new site)
     nbrs = None
@@ -952,7 +988,9 @@ def none_sources_and_writes(prog, f, depth=0, seen=None):
     for nb, desc in nblocks:
         sources.append("%s at %s" % (desc, f.loc(nb)))
         for wb, flds in wblocks.items():
-            if wb == nb or nb in f.reachable_from(wb):
+            # (paths only: once the write has happened on the way to `Some(x)`, the None edge of a later `?` / match on that very value
+            # cannot be taken - value provenance of branch edges, an.infeasible_edges_from)
+            if wb == nb or nb in an.reachable_with_edges_removed(f, wb, set(), an.infeasible_edges_from(f, wb, None)):
                 # a write that can precede this None return
                 if desc.startswith(("then", "map", "and_then", "first", "get", "call ")):
                     # value-dependent Some/None from a std combinator after a write: only a problem if it can be None; first()/get() after a write are flagged
